@@ -123,7 +123,15 @@ def check(ctx):
     # wide: every constructor route, one state-changing step
     n1 = mc_and_replay(ctx, 'wide', cfg(seed, 151 if quick else 19, 4, 1, ALL_CTORS, acts))
     # deep: all sequences of <= 3 form conversions on raw-tensor MPS
-    n2 = mc_and_replay(ctx, 'deep', cfg(seed, 251 if quick else 31, 3, 3, {'new'}, {'convert', 'observe'}))
+    n2 = 0
+    for k in range(3):   # densify the seeded sample if it left no case
+        n2 += mc_and_replay(ctx, 'deep' if k == 0 else 'deep+%d' % k,
+                            cfg(seed, max(2, (251 if quick else 31) // 5 ** k), 3, 3, {'new'}, {'convert', 'observe'}))
+        if n2 > 0:
+            break
+    ctx.notes['uncovered_actions'] = sorted(a for a in ('DoNew', 'DoProduct', 'DoLatProduct', 'DoSinglets', 'DoCovering', 'DoFromFull',
+                                                        'DoFromBflat', 'DoConvert', 'DoSetB', 'DoObserve', 'DoCanonical')
+                                            if ctx.coverage_actions.get(a, (0, 0))[0] == 0)
     ctx.notes['behaviours'] = dict(wide=n1, deep=n2)
     ctx.notes['replay_wall_s'] = round(time.time() - t0, 1)
 
